@@ -2,10 +2,8 @@ package c18
 
 import (
 	"bytes"
-	"errors"
 	"fmt"
 	"math"
-	"sort"
 	"strconv"
 	"strings"
 	"sync"
@@ -945,12 +943,6 @@ func checkT(c TCase, r *vf.R) error {
 	if len(spans) > 0 && (adjusted || len(spans) > 1) {
 		r.NonTrivial()
 	}
-	usesCFF := false
-	for _, run := range c.Runs {
-		if run.Font == 1 {
-			usesCFF = true
-		}
-	}
 	fontCache := map[int]*pdfFont{}
 	for pi, pg := range pages {
 		fontRes := f.Dict(pg.Resources["Font"])
@@ -977,10 +969,6 @@ func checkT(c TCase, r *vf.R) error {
 				}
 				if fontCache[ref.Num] == nil {
 					pf, err := readFont(f, f.Dict(ref))
-					if err != nil && errors.Is(err, errCFFPrivate) && r.Excluded("F18b", usesCFF && c.Subset) {
-						// known finding: the rest of this document cannot be decoded
-						return nil
-					}
 					if err != nil {
 						return vf.Errorf("page %d: font /%s (object %d): %v", pi, a[0], ref.Num, err)
 					}
@@ -1097,18 +1085,6 @@ func checkT(c TCase, r *vf.R) error {
 		}
 		if si != len(spans) {
 			return vf.Errorf("page %d: %d TJ operators for %d laid-out spans", pi, si, len(spans))
-		}
-	}
-	// .notdef at zero in every embedded font, used codes dense
-	nums := make([]int, 0, len(fontCache))
-	for n := range fontCache {
-		nums = append(nums, n)
-	}
-	sort.Ints(nums)
-	for _, n := range nums {
-		pf := fontCache[n]
-		if c.Subset && !strings.HasPrefix(pf.base, "SUBSET+") {
-			return vf.Errorf("font object %d: subsetted font is named %q", n, pf.base)
 		}
 	}
 	return nil
